@@ -268,13 +268,9 @@ func (c *c30Child) caseLive(k int) { //nolint:cyclop,gocognit,gocyclo,maintidx
 			_, okAll = c.call("AddICECandidate", func() error { return v.pc.AddICECandidate(ICECandidateInit{Candidate: cand}) })
 		}
 		media()
-		_, _ = c.call("drain", func() error {
-			if connected {
-				rigDrain(v.pc)
-			}
-
-			return nil
-		})
+		if connected {
+			c30SoftDrain(v.pc, 50*time.Millisecond)
+		}
 		time.Sleep(time.Millisecond)
 		okAll = okAll && c.alive("live", v.pc, a.pc)
 	}
@@ -288,6 +284,21 @@ func (c *c30Child) caseLive(k int) { //nolint:cyclop,gocognit,gocyclo,maintidx
 		go rigClose(v.pc, a.pc)
 	}
 	c.eval(tag+"|end|"+strconv.Itoa(k), connected)
+}
+
+// c30SoftDrain waits for the operations queue, but not for long: an operation may legitimately block on the
+// network (SCTP association, ICE restart).
+func c30SoftDrain(pc *PeerConnection, d time.Duration) {
+	done := make(chan struct{})
+	go func() {
+		defer func() { _ = recover() }()
+		rigDrain(pc)
+		close(done)
+	}()
+	select {
+	case <-done:
+	case <-time.After(d):
+	}
 }
 
 func c30ErrClassShort(err error) string {
@@ -763,12 +774,8 @@ func (c *c30Child) caseMix(k int) {
 	}
 	okAll := c.alive("mix", o.pc, a.pc)
 	if connected && okAll {
-		_, _ = c.call("drain", func() error {
-			rigDrain(o.pc)
-			rigDrain(a.pc)
-
-			return nil
-		})
+		c30SoftDrain(o.pc, 200*time.Millisecond)
+		c30SoftDrain(a.pc, 200*time.Millisecond)
 	}
 	time.Sleep(20 * time.Millisecond)
 	c.Count("mix_ontrack", int(o.onTrk.Load()+a.onTrk.Load()))
